@@ -64,11 +64,21 @@ Child6 == [n \in N6 |-> CASE n = "R" -> [x \in {"a","b","c"} |-> IF x = "a" THEN
 Static6 == [n \in N6 |-> CASE n = "A" -> -2 [] n = "B" -> -1 [] n = "C" -> 1 [] n = "T1" -> 3 [] n = "A2" -> 2 [] n = "B2" -> -1 [] n = "Q" -> -1 [] n = "L" -> 1 [] OTHER -> 0]
 Status6 == [n \in N6 |-> IF n \in {"M","M2"} THEN "mate" ELSE "open"]
 
-GNodes == CASE GAME = "rich" -> N6 [] GAME = "mate7" -> N1 [] GAME = "coll" -> N2 [] GAME = "twomates" -> N3 [] GAME = "tiny" -> N4 [] OTHER -> N5
-GMoves == CASE GAME = "rich" -> Moves6 [] GAME = "mate7" -> Moves1 [] GAME = "coll" -> Moves2 [] GAME = "twomates" -> Moves3 [] GAME = "tiny" -> Moves4 [] OTHER -> Moves5
-GChild == CASE GAME = "rich" -> Child6 [] GAME = "mate7" -> Child1 [] GAME = "coll" -> Child2 [] GAME = "twomates" -> Child3 [] GAME = "tiny" -> Child4 [] OTHER -> Child5
-GStatic == CASE GAME = "rich" -> Static6 [] GAME = "mate7" -> Static1 [] GAME = "coll" -> Static2 [] GAME = "twomates" -> Static3 [] GAME = "tiny" -> Static4 [] OTHER -> Static5
-GStatus == CASE GAME = "rich" -> Status6 [] GAME = "mate7" -> Status1 [] GAME = "coll" -> Status2 [] GAME = "twomates" -> Status3 [] GAME = "tiny" -> Status4 [] OTHER -> Status5
+\* ---- game "qs": a mate that only the quiescence search sees (capture, forced recapture, capturing mate), next to quiet moves ----
+N7 == {"R","Q","X","Y","K2","M","Q1"}
+Moves7 == [n \in N7 |-> CASE n = "R" -> {"q","x"} [] n = "Q" -> {"q1"} [] n = "X" -> {"r"} [] n = "Y" -> {"m","k"} [] n = "K2" -> {} [] n = "Q1" -> {} [] OTHER -> {}]
+Child7 == [n \in N7 |-> CASE n = "R" -> [z \in {"q","x"} |-> IF z = "q" THEN "Q" ELSE "X"] [] n = "Q" -> [z \in {"q1"} |-> "Q1"]
+                        [] n = "X" -> [z \in {"r"} |-> "Y"] [] n = "Y" -> [z \in {"m","k"} |-> IF z = "m" THEN "M" ELSE "K2"] [] OTHER -> [z \in {} |-> n]]
+Static7 == [n \in N7 |-> CASE n = "Q" -> -1 [] n = "X" -> -3 [] n = "Y" -> 1 [] OTHER -> 0]
+Status7 == [n \in N7 |-> IF n = "M" THEN "mate" ELSE IF n \in {"K2","Q1"} THEN "stale" ELSE "open"]
+Cap7 == [n \in N7 |-> CASE n = "R" -> <<"x">> [] n = "X" -> <<"r">> [] n = "Y" -> <<"m">> [] OTHER -> <<>>]
+
+GNodes == CASE GAME = "qs" -> N7 [] GAME = "rich" -> N6 [] GAME = "mate7" -> N1 [] GAME = "coll" -> N2 [] GAME = "twomates" -> N3 [] GAME = "tiny" -> N4 [] OTHER -> N5
+GMoves == CASE GAME = "qs" -> Moves7 [] GAME = "rich" -> Moves6 [] GAME = "mate7" -> Moves1 [] GAME = "coll" -> Moves2 [] GAME = "twomates" -> Moves3 [] GAME = "tiny" -> Moves4 [] OTHER -> Moves5
+GChild == CASE GAME = "qs" -> Child7 [] GAME = "rich" -> Child6 [] GAME = "mate7" -> Child1 [] GAME = "coll" -> Child2 [] GAME = "twomates" -> Child3 [] GAME = "tiny" -> Child4 [] OTHER -> Child5
+GStatic == CASE GAME = "qs" -> Static7 [] GAME = "rich" -> Static6 [] GAME = "mate7" -> Static1 [] GAME = "coll" -> Static2 [] GAME = "twomates" -> Static3 [] GAME = "tiny" -> Static4 [] OTHER -> Static5
+GStatus == CASE GAME = "qs" -> Status7 [] GAME = "rich" -> Status6 [] GAME = "mate7" -> Status1 [] GAME = "coll" -> Status2 [] GAME = "twomates" -> Status3 [] GAME = "tiny" -> Status4 [] OTHER -> Status5
+GCap == IF GAME = "qs" THEN Cap7 ELSE [n \in GNodes |-> <<>>]
 GKey == [n \in GNodes |-> IF Collide /\ n = "Rc" THEN "R" ELSE n]
 GMoveIds == UNION { GMoves[n] : n \in GNodes }
 \* move orders: every permutation at the root (the seed's jitter), one fixed order elsewhere
